@@ -131,7 +131,7 @@ def _run(job):
             out.append({
                 "entry": name,
                 "obs": [{"key": o.key, "kind": o.kind, "fn": o.fn, "snip": o.snip, "loc": o.loc, "proven": o.proven,
-                         "failed": o.failed, "visits": o.visits, "detail": o.detail} for o in ctx.obs.values()],
+                         "failed": o.failed, "visits": o.visits, "detail": o.detail, "fail_callers": sorted(o.fail_callers)} for o in ctx.obs.values()],
                 "unmodelled": dict(ctx.unmodelled),
                 "notes": dict(ctx.notes),
                 "insts": len(ctx.insts_visited),
